@@ -120,3 +120,57 @@ def native_block_mapping(arg, values):
             tc = tgt.column[tgt.column_name(b)] if tatm == 1 else None
             if mp.get(b) not in src.block_name_list[:src.num_atmosphere_blocks]: bad.append('atmosphere block %r -> %r is not a source atmosphere block' % (b, mp.get(b)))
     return (not bad), '; '.join(bad[:4]) or 'mapping is total and nearest-based'
+
+
+def native_locate(arg, values):
+    """C12: column_containing_point with a search aid on a real rectangular geometry, against the rectangles of the construction."""
+    import numpy as np
+    shape, aid = arg
+    geo, dx, dy, dz, org, surf = build((shape[0], shape[1], 2, 0, 0, 0), values)
+    nx, ny = shape
+    p = np.array([_val(values, 'px', org[0] + 0.3 * dx[0]), _val(values, 'py', org[1] + 0.6 * dy[0])])
+    rect = [(org[0] + sum(dx[:i]), org[0] + sum(dx[:i + 1]), org[1] + sum(dy[:j]), org[1] + sum(dy[:j + 1])) for j in range(ny) for i in range(nx)]
+    kw = {}
+    cols = geo.columnlist
+    if isinstance(aid, tuple) and aid[0] == 'guess': kw['guess'] = cols[aid[1]]
+    elif aid == 'bounds': kw['bounds'] = [np.array([rect[0][0], rect[0][2]]), np.array([rect[-1][1], rect[-1][3]])]
+    elif isinstance(aid, tuple) and aid[0] == 'subset': kw['columns'] = [cols[k] for k in aid[1:]]
+    elif aid == 'quadtree': kw['qtree'] = geo.column_quadtree()
+    try:
+        r = geo.column_containing_point(p, **kw)
+    except Exception as ex:
+        return False, 'raises %s: %s' % (type(ex).__name__, ex)
+    tol = 1e-6
+    searched = range(len(cols)) if not (isinstance(aid, tuple) and aid[0] == 'subset') else aid[1:]
+    inside = [k for k in searched if rect[k][0] + tol < p[0] < rect[k][1] - tol and rect[k][2] + tol < p[1] < rect[k][3] - tol]
+    got = [k for k, c in enumerate(cols) if c is r]
+    if r is None:
+        return (not inside), 'point %r strictly inside column %r, nothing reported' % (list(p), [cols[k].name for k in inside])
+    k = got[0]
+    ok = rect[k][0] <= p[0] <= rect[k][1] and rect[k][2] <= p[1] <= rect[k][3] and all(j == k for j in inside)
+    return bool(ok), 'point %r reported in %r (rectangle %r), strictly inside %r' % (list(p), r.name, rect[k], [cols[j].name for j in inside])
+
+
+def native_locate_block(arg, values):
+    import numpy as np
+    shape, atm = arg
+    geo, dx, dy, dz, org, surf = build((shape[0], shape[1], shape[2], atm, 0, 1), values)
+    nx, ny, nz = shape
+    p = np.array([_val(values, 'px', org[0] + 0.3 * dx[0]), _val(values, 'py', org[1] + 0.6 * dy[0]), _val(values, 'pz', org[2] - 0.5 * dz[0])])
+    try:
+        r = geo.block_name_containing_point(p)
+    except Exception as ex:
+        return False, 'raises %s: %s' % (type(ex).__name__, ex)
+    bottoms = [org[2] - sum(dz[:k + 1]) for k in range(nz)]; tops = [org[2]] + bottoms[:-1]
+    tol = 1e-6
+    holds = []
+    for ci in range(nx * ny):
+        i, j = ci % nx, ci // nx
+        x0, y0 = org[0] + sum(dx[:i]), org[1] + sum(dy[:j])
+        if not (x0 + tol < p[0] < x0 + dx[i] - tol and y0 + tol < p[1] < y0 + dy[j] - tol): continue
+        for li in range(1, nz + 1):
+            bot, top, sf = bottoms[li - 1], tops[li - 1], surf[ci]
+            btop = sf if (sf <= top or li == 1) else top
+            if sf > bot and bot < p[2] < btop: holds.append(geo.block_name(geo.layerlist[li].name, geo.columnlist[ci].name))
+    ok = (r is None and not holds) or (r is not None and all(h == r for h in holds) and r in geo.block_name_list[geo.num_atmosphere_blocks:])
+    return bool(ok), 'point %r reported in block %r, strictly inside %r' % (list(p), r, holds)
